@@ -2,6 +2,8 @@
 # Dev tool: re-run all quick checks on every confirmed seed under /verif/seeded and refresh meta.json.
 #   tools/recheck_seeds.sh [shard k] [of n]      (each shard uses its own scratch copy /tmp/mutR<k>)
 #   env PROPS="C02 C03": only these checks are re-run and only their entries in meta.json are replaced;
+#   env PROPS=listed: per seed, its own property plus the checks recorded in its meta.json (re-validation after
+#   a change of the machinery at a fraction of the cost);
 #   env SEEDS=<regex>: only seeds whose id matches
 K="${1:-0}"; N="${2:-1}"
 cd /verif
@@ -12,11 +14,16 @@ for d in seeded/*/; do
   if [ -n "$SEEDS" ] && ! echo "$ID" | grep -Eq "$SEEDS"; then continue; fi
   i=$((i+1))
   [ $((i % N)) -eq "$K" ] || continue
-  C=$(MUT_SCRATCH=/tmp/mutR$K python3 tools/seedcheck.py seeded/$ID/patch.diff $PROPS 2>&1)
+  P="$PROPS"
+  if [ "$PROPS" = "listed" ]; then
+    # the seed's own property plus every check that reported it before
+    P=$(python3 -c "import json,sys; m=json.load(open('seeded/$ID/meta.json')); print(' '.join(sorted(set([m['breaks_property']]+m['quick_checks_that_caught_it']))))")
+  fi
+  C=$(MUT_SCRATCH=/tmp/mutR$K python3 tools/seedcheck.py seeded/$ID/patch.diff $P 2>&1)
   echo "$C" | sed "s/^/$ID: /"
   CAUGHT=$(echo "$C" | grep "^CAUGHT-BY:" | sed 's/CAUGHT-BY: //')
   [ -n "$CAUGHT" ] || continue
-  python3 - "$ID" "$CAUGHT" "$PROPS" <<'PY'
+  python3 - "$ID" "$CAUGHT" "$P" <<'PY'
 import json,sys
 i,c,props=sys.argv[1:4]
 new=[] if c in('none','') else c.split()
